@@ -845,13 +845,16 @@ func (s *ResettableKeystore) Close() (err error) {
 	first := false
 	s.closeOnce.Do(func() {
 		first = true
+		s.closing.Add(1)
 		close(s.close)
 	})
 	<-s.done // Wait for worker to exit (no new buffer appends after this).
 	if !first {
 		// Another Close call is under way or over.
+		s.closing.Wait()
 		return nil
 	}
+	defer s.closing.Done()
 	{
 		// Wait for any in-flight altDs write from ResetCids to finish.
 		// We never release the token, so subsequent ResetCids callers fall
